@@ -1,3 +1,4 @@
+#![recursion_limit = "256"]
 pub mod checks;
 pub mod checks2;
 pub mod checks3;
